@@ -56,6 +56,19 @@ def sql_ident(n):
     return '"%s"' % n.replace('"', '""')
 
 
+_PREP = None
+
+
+def sa_quote(n):
+    """the identifier as SQLAlchemy's SQLite preparer writes it (canonical statement texts)"""
+    global _PREP
+    if _PREP is None:
+        from sqlalchemy.dialects import sqlite
+
+        _PREP = sqlite.dialect().identifier_preparer
+    return _PREP.quote(n)
+
+
 def sql_lit(v):
     k = v["k"]
     if k == "null":
@@ -153,6 +166,9 @@ class BodyGen:
                         self.nextid += 1
                     else:
                         vals.append(sql_lit(gen_value(rng, c["type"], c["nullable"], self.tabs, True)))
+                if rng.random() < 0.5:  # exactly the text SQLAlchemy would write: the model's recogniser reads it as an INSERT
+                    return {"op": "execute", "text": "INSERT INTO %s (%s) VALUES (%s)" % (
+                        sa_quote(table["name"]), ", ".join(sa_quote(c["name"]) for c in use), ", ".join(vals))}
                 txt = "INSERT INTO %s (%s) VALUES (%s)" % (tn, ", ".join(sql_ident(c["name"]) for c in use), ", ".join(vals))
         deco = rng.random()
         if deco < 0.1:
